@@ -53,6 +53,11 @@ def ERec.lline (e : ERec) : String :=
   let e' := if e.file.isNone then { e with line := 0 } else e
   s!"{e.ttag} {Char.ofNat (levelCode e.lvl).toNat} {e'.fields} 1"
 
+def colorField (color : Bool) (lvl : Nat) : String :=
+  if color then "c=" ++ String.ofList ((colorCode lvl).map fun b => Char.ofNat b.toNat) else "c=-"
+
+def ERec.llineC (e : ERec) (color : Bool) : String := e.lline ++ " " ++ colorField color e.lvl
+
 def ERec.toRec (e : ERec) : Rec :=
   { level := e.lvl, ts := List.replicate 26 84, tid := asciiBytes (toString e.ttag), module := asciiBytes e.mod,
     func := e.func.map asciiBytes, text := e.text, trunc := e.tr, file := e.file.map asciiBytes,
@@ -95,15 +100,25 @@ def expectRec (max : Nat) (ttag : Nat) (m : Msg) : ERec :=
     line := m.line, text := text, tr := tr,
     tags := tags ++ (if m.level < 0 || m.level ≥ 8 then ["clamp"] else []) ++ (if max == 0 then ["max0"] else []) }
 
-inductive SKind where | mem | file
+inductive SKind where | mem | file | stream      -- stream = sync/async stdout or syslog: one unbounded "file"
   deriving BEq
+
+/-- a record dispatched to a file/stream sink: colour at dispatch time; `opt` = the filter was being
+reconfigured concurrently and the record passes some but not all of the configurations in force -/
+structure PRec where
+  e : ERec
+  color : Bool
+  opt : Bool := false
 
 structure SinkSt where
   kind : SKind
   enabled : Bool := true
   cfg : FilterCfg := {}
   fmax : Nat := 0
-  pending : Array ERec := #[]       -- file sink: everything dispatched to it so far
+  color : Bool := false
+  dirty : Bool := false             -- records dispatched since creation / the last `off`
+  fd1 : Bool := false               -- writes to fd 1 (at most one such sink per case)
+  pending : Array PRec := #[]       -- file/stream sink: everything dispatched to it so far
 
 instance : Inhabited SinkSt := ⟨{ kind := .mem }⟩
 
@@ -158,7 +173,39 @@ def matchGlobal (queues : Array (List ERec)) (base : Nat) (obs : List String) : 
     | [] => pure ()
   return out.toList
 
-def hexMasked (e : ERec) : String := hexOfBytes (render e.toRec)
+def PRec.bytes (p : PRec) : Bytes := renderC p.color p.e.toRec
+def hexMasked (p : PRec) : String := hexOfBytes p.bytes
+
+/-- match the observed record lines against the pending ones, skipping optional ones that are absent;
+returns the pending records that are present, or the index of the first observed line that does not fit -/
+def matchOpt : List String → List PRec → Nat → Except (Nat × String × String) (List PRec)
+  | [], ps, i =>
+    match ps.find? (!·.opt) with
+    | some p => .error (i, "<missing>", p.e.llineC p.color)
+    | none => .ok []
+  | o :: os, [], i => .error (i, o, "<missing>")
+  | o :: os, p :: ps, i =>
+    if p.e.llineC p.color == o then (matchOpt os ps (i + 1)).map (p :: ·)
+    else if p.opt then matchOpt (o :: os) ps i
+    else .error (i, o, p.e.llineC p.color)
+
+/-- concurrent reconfiguration actions of `runc` -/
+inductive CAct where
+  | lvl (k : Nat) (md : Option String) (lv : Int)
+  | unset (k : Nat) (md : String)
+  | max (n : Nat)
+
+def parseCAct (nsinks : Nat) (w : String) : Option CAct :=
+  match w.splitOn "," with
+  | ["lvl", k, md, lv] => do
+    let k ← k.toNat?; let lv ← intOfString? lv
+    if k = 0 || k > nsinks || lv.natAbs > 1000 then none else
+    if md == "*" then some (.lvl k none lv) else if nameOk md then some (.lvl k (some md) lv) else none
+  | ["unset", k, md] => do
+    let k ← k.toNat?
+    if k = 0 || k > nsinks || !nameOk md then none else some (.unset k md)
+  | ["max", n] => do let n ← n.toNat?; if n ≤ 200000 then some (.max n) else none
+  | _ => none
 
 def stepOp (a : TA) (line : String) : TA :=
   if a.err.isSome then a else
@@ -180,6 +227,27 @@ def stepOp (a : TA) (line : String) : TA :=
         let a := { a with sinks := a.sinks.push { kind := .file, fmax := fmax } }
         expectLine a s!"P sink {a.sinks.size} file" "sink"
     | _, _, _, _, _ => expectLine a "bad-op" "malformed op"
+  | "sink" :: kind :: cfgw =>
+    let isSout := kind == "sout" && cfgw.isEmpty
+    let isA := (kind == "aout" || kind == "syslog") && cfgw.length == 4
+    let nums := cfgw.map (·.toNat?.getD 0)
+    let okCfg := cfgw.all (fun w => w.toNat?.isSome && w.length ≤ 9) &&
+      (match nums with
+       | [bsz, bmin, bmax, ival] => !(bsz = 0 || bmin = 0 || bmin > bmax || ival = 0 || bsz > 1000000 || bmax > 64 || ival > 1000)
+       | _ => true)
+    let fd1 := kind != "syslog"
+    if !(isSout || isA) || !okCfg || a.sinks.size ≥ 6 || (fd1 && a.sinks.any (·.fd1)) then expectLine a "bad-op" "malformed op" else
+    let a := { a with sinks := a.sinks.push { kind := .stream, fd1 := fd1 }, tags := a.tags ++ ["sink-" ++ kind] }
+    expectLine a s!"P sink {a.sinks.size} {kind}" "sink"
+  | ["color", k, v] =>
+    match sinkOf a k with
+    | some (k, s) =>
+      if (v != "0" && v != "1") || (s.enabled && s.dirty) then expectLine a "bad-op" "malformed op" else
+      expectLine { a with sinks := a.sinks.set! (k - 1) { s with color := v == "1" }, tags := a.tags ++ (if v == "1" then ["color-on"] else []) } "P color" "color"
+    | none => expectLine a "bad-op" "malformed op"
+  | "wfault" :: vs =>
+    if vs.isEmpty || vs.length > 64 || !vs.all (fun w => w.length ≤ 6 && w.toNat?.isSome) then expectLine a "bad-op" "malformed op"
+    else expectLine { a with tags := a.tags ++ ["wfault"] } "P wfault" "wfault"
   | ["lvl", k, md, lv] =>
     match sinkOf a k, intOfString? lv with
     | some (k, s), some lv =>
@@ -206,54 +274,64 @@ def stepOp (a : TA) (line : String) : TA :=
     match sinkOf a k with
     | none => expectLine a "bad-op" "malformed op"
     | some (k, s) =>
-      let a := { a with sinks := a.sinks.set! (k - 1) { s with enabled := false } }
+      let a := { a with sinks := a.sinks.set! (k - 1) { s with enabled := false, dirty := false } }
       if s.kind == .mem then expectLine a s!"P off {k}" "off" else
-      -- directory listing: F <k> <i> <size>, then per line L/W (or X for damage), then P off k files=n
-      let (lst, rest) := a.tl.span (fun l => l.startsWith "F " || l.startsWith "L " || l.startsWith "W " || l.startsWith "X ")
+      -- listing: F <k> <i> <size> <normalised size>, then per line L/W (or X for damage), I <faults injected>, then P off k files=n
+      let (lst, rest) := a.tl.span (fun l => l.startsWith "F " || l.startsWith "L " || l.startsWith "W " || l.startsWith "X " || l.startsWith "I ")
       let a := { a with tl := rest }
       match lst.find? (·.startsWith "X ") with
-      | some x => a.fail s!"file sink {k}: damaged / partial / unparsable record in a log file (record SPLIT or corrupt): [{x.take 200}]"
+      | some x => a.fail s!"sink {k}: damaged / partial / unparsable record in the output (record SPLIT, DUPLICATED in part, or corrupt): [{x.take 200}]"
       | none =>
         let fl := lst.filter (·.startsWith "F ")
         let ll := lst.filter (·.startsWith "L ")
         let wl := lst.filter (·.startsWith "W ")
+        let injected := (lst.filter (·.startsWith "I ")).any (fun l => ((words l).getD 1 "0").toNat?.getD 0 > 0)
         let sizes := fl.map fun l => ((words l).getD 3 "").toNat?.getD 0
         let adjs := fl.map fun l => ((words l).getD 4 "").toNat?.getD 0
         let n := fl.length
-        -- (1) the records, in file creation order, are exactly the expected ones
+        -- (1) the records, in creation order, are exactly the expected ones (optional ones may be absent)
         let obs := ll.map fun l => " ".intercalate ((words l).drop 3)
-        let want := s.pending.toList.map (·.lline)
-        if obs != want then
-          let i := ((obs.zip want).takeWhile (fun p => p.1 == p.2)).length
-          a.fail (s!"file sink {k}: record #{i} of {want.length} (in file creation order) differs — LOST, DUPLICATED, reordered or damaged: " ++
-                  s!"impl=[{(obs.getD i "<missing>").take 160}] model=[{(want.getD i "<missing>").take 160}]")
-        else
+        match matchOpt obs s.pending.toList 0 with
+        | .error (i, o, w) =>
+          a.fail (s!"sink {k}: record #{i} (in creation order) differs — LOST, DUPLICATED, reordered or damaged: " ++
+                  s!"impl=[{o.take 160}] model=[{w.take 160}]")
+        | .ok present =>
         -- (2) byte-exact rendering of the short records
-        let wantW := (s.pending.toList.filter (fun e => (render e.toRec).length ≤ 200)).map hexMasked
+        let wantW := (present.filter (fun p => p.bytes.length ≤ 200)).map hexMasked
         let obsW := wl.map fun l => (words l).getD 3 ""
         if obsW != wantW then
           let i := ((obsW.zip wantW).takeWhile (fun p => p.1 == p.2)).length
-          a.fail s!"file sink {k}: rendered bytes of short record #{i} differ: impl=[{obsW.getD i "<missing>"}] model=[{wantW.getD i "<missing>"}]"
+          a.fail s!"sink {k}: rendered bytes of short record #{i} differ: impl=[{obsW.getD i "<missing>"}] model=[{wantW.getD i "<missing>"}]"
         else
         -- (3) rollover rule: every file but the last reached the limit; no empty file; files only if records
-        if sizes.any (· == 0) then a.fail s!"file sink {k}: an empty log file exists" else
+        if sizes.any (· == 0) then a.fail s!"sink {k}: an empty log file exists" else
         if (sizes.dropLast).any (· < s.fmax) then
           a.fail s!"file sink {k}: a file was rolled over below the limit {s.fmax}: sizes={sizes}" else
-        if want.isEmpty != (n == 0) then a.fail s!"file sink {k}: {n} files for {want.length} records" else
-        let totalWant := (s.pending.toList.map fun e => (render e.toRec).length).foldl (· + ·) 0
+        if present.isEmpty != (n == 0) then a.fail s!"sink {k}: {n} files for {present.length} records" else
+        if s.kind == .stream && n > 1 then a.fail s!"sink {k}: {n} streams" else
+        let totalWant := (present.map fun p => p.bytes.length).foldl (· + ·) 0
         if adjs.foldl (· + ·) 0 != totalWant then
-          a.fail s!"file sink {k}: total size {adjs.foldl (· + ·) 0} (thread ids normalised) differs from the rendered records' {totalWant}" else
-        let tags := (if n ≥ 2 then ["rollover"] else []) ++ (if n ≥ 1 then ["file-nonempty"] else ["file-empty"])
-          ++ (if s.pending.any (fun e => (render e.toRec).length > s.fmax) then ["limit<record"] else [])
+          a.fail s!"sink {k}: total size {adjs.foldl (· + ·) 0} (thread ids normalised) differs from the rendered records' {totalWant}" else
+        let tags := (if n ≥ 2 then ["rollover"] else []) ++ (if n ≥ 1 then ["out-nonempty"] else ["out-empty"])
+          ++ (if s.kind == .file && n ≥ 1 then ["file-nonempty"] else [])
+          ++ (if s.kind == .file && present.any (fun p => p.bytes.length > s.fmax) then ["limit<record"] else [])
+          ++ (if present.any (·.color) then ["colored-record"] else [])
+          ++ (if injected then ["wfault-hit"] else [])
         expectLine { a with tags := a.tags ++ tags } s!"P off {k} files={n}" "off"
-  | "run" :: tw :: specs =>
+  | op :: tw :: restw =>
+    if op != "run" && op != "runc" then expectLine a "bad-op" "malformed op" else
     match tw.toNat? with
     | none => expectLine a "bad-op" "malformed op"
     | some T =>
-      if T = 0 || T > 8 || specs.length > 400 then expectLine a "bad-op" "malformed op" else
-      match specs.mapM (parseMsg T) with
-      | none => expectLine a "bad-op" "malformed op"
-      | some msgs =>
+      -- runc: <A> concurrent reconfiguration actions precede the message specs
+      let nA := if op == "runc" then (restw.headD "").toNat?.getD 1000 else 0
+      let restw := if op == "runc" then restw.drop 1 else restw
+      let actsW := restw.take nA
+      let specs := restw.drop nA
+      if T = 0 || T > 8 || tw.length > 2 || specs.length > 400 || nA > 16 || actsW.length != nA then expectLine a "bad-op" "malformed op" else
+      match specs.mapM (parseMsg T), actsW.mapM (parseCAct a.sinks.size) with
+      | some msgs, some acts =>
+        if acts.any (fun c => match c with | .max n => n != a.max | _ => false) then expectLine a "bad-op" "malformed op" else
         let base := a.runIdx * 8
         let queues : Array (List ERec) := (Array.range T).map fun t =>
           (msgs.filter (·.t == t)).map (expectRec a.max (base + t))
@@ -269,24 +347,44 @@ def stepOp (a : TA) (line : String) : TA :=
           let switches := ((G.zip (G.drop 1)).filter fun p => p.1.ttag != p.2.ttag).length
           let newTags := a.tags ++ recTags ++ (if active ≥ 2 then ["threads>=2"] else ["threads1"])
                                  ++ (if switches ≥ active && active ≥ 2 then ["interleaved"] else [])
+                                 ++ (if nA > 0 then ["concurrent-reconf"] else [])
           let mut a := { a with nrec := a.nrec + G.length, tags := newTags }
           for i in [0:a.sinks.size] do
             if a.err.isSome then break
             let s := a.sinks[i]!
-            let sel := G.filter (passes s)
-            if s.enabled && sel.length < G.length then a := { a with tags := a.tags ++ ["filter-drop"] }
+            -- every filter configuration in force at some moment of the run
+            let cfgs : List FilterCfg := acts.foldl (fun (acc : List FilterCfg) c =>
+              let cur := acc.getLast?.getD s.cfg
+              match c with
+              | .lvl k md lv => if k == i + 1 then acc ++ [match md with | some m => cur.setModule m lv | none => cur.setDefault lv] else acc
+              | .unset k md => if k == i + 1 then acc ++ [cur.unset md] else acc
+              | .max _ => acc) [s.cfg]
+            let must (e : ERec) : Bool := s.enabled && cfgs.all fun c => filter c (Int.ofNat e.lvl) e.mod
+            let may (e : ERec) : Bool := s.enabled && cfgs.any fun c => filter c (Int.ofNat e.lvl) e.mod
+            let sel := G.filter may
+            if s.enabled && (G.filter must).length < G.length then a := { a with tags := a.tags ++ ["filter-drop"] }
             if s.enabled && !sel.isEmpty then a := { a with tags := a.tags ++ ["filter-pass"] }
+            let s := { s with cfg := cfgs.getLast?.getD s.cfg, dirty := s.dirty || s.enabled }
             match s.kind with
             | .mem =>
               let obs := ofSink (i + 1)
-              let want := sel.map (·.rline)
-              if obs != want then
-                let j := ((obs.zip want).takeWhile (fun p => p.1 == p.2)).length
+              let pend := sel.map fun e => ({ e := e, color := false, opt := !must e } : PRec)
+              -- reuse matchOpt on the in-memory line format
+              let rec go : List String → List PRec → Nat → Option (Nat × String × String)
+                | [], ps, j => (ps.find? (!·.opt)).map fun p => (j, "<missing>", p.e.rline)
+                | o :: _, [], j => some (j, o, "<missing>")
+                | o :: os, p :: ps, j =>
+                  if p.e.rline == o then go os ps (j + 1) else if p.opt then go (o :: os) ps j else some (j, o, p.e.rline)
+              match go obs pend 0 with
+              | some (j, o, w) =>
                 a := a.fail (s!"sink {i + 1}: record #{j} differs from the filtered global order (a call that passes must produce exactly one record, " ++
-                             s!"one that does not none): impl=[{(obs.getD j "<missing>").take 160}] model=[{(want.getD j "<missing>").take 160}]")
-            | .file =>
-              a := { a with sinks := a.sinks.set! i { s with pending := s.pending ++ sel.toArray } }
+                             s!"one that does not none): impl=[{o.take 160}] model=[{w.take 160}]")
+              | none => a := { a with sinks := a.sinks.set! i s }
+            | _ =>
+              let add := sel.map fun e => ({ e := e, color := s.color, opt := !must e } : PRec)
+              a := { a with sinks := a.sinks.set! i { s with pending := s.pending ++ add.toArray } }
           return (if a.err.isSome then a else expectLine a s!"P run {G.length}" "run")
+      | _, _ => expectLine a "bad-op" "malformed op"
   | _ => expectLine a "bad-op" "malformed op"
 
 structure DS where
